@@ -701,6 +701,47 @@ theorem fullInv_of_hasBase {r : Registry} (h : RegInv r) (hb : HasBase r) : Full
   obtain ⟨b, t, hbt, hbase⟩ := h.baseFirst _ _ hl (hb _ _ hl)
   exact ⟨b, t, hbt, h.baseIdent _ _ hl b (by rw [hbt]; simp) hbase⟩
 
+/-- every registration call keeps the invariant (restated as `step_preserves_RegInv` in Props/C14) -/
+theorem step_inv {r : Registry} (h : RegInv r) (op : RegOp) : RegInv (step lg r op).1 := by
+  cases op with
+  | addUnitBase qt name unit =>
+    have := addUnitBase_inv h qt name unit
+    simp only [step]
+    cases hs : addUnitBase r qt name unit with
+    | mk r1 o => rw [hs] at this; cases o <;> exact this
+  | addUnit qt name unit fb tb dc =>
+    have := addUnit_inv h qt name unit fb tb dc
+    simp only [step]
+    cases hs : addUnit r qt name unit fb tb dc with
+    | mk r1 o => rw [hs] at this; cases o <;> exact this
+  | addCategory a =>
+    have := addCategory_inv (lg := lg) h a
+    simp only [step]
+    cases hs : addCategory lg r a with
+    | mk r1 o => rw [hs] at this; cases o <;> exact this
+
+/-- a rejected call leaves a well-formed registry as it was (restated as `rejected_step_id` in Props/C14) -/
+theorem rejected_id {r r' : Registry} (h : RegInv r) {op : RegOp} {e : ErrKind}
+    (hs : step lg r op = (r', .error e)) : r' = r := by
+  cases op with
+  | addUnitBase qt name unit =>
+    simp only [step] at hs
+    unfold addUnitBase at hs
+    rcases addInfo_spec h qt unit (baseInfo name) with ⟨e', he⟩ | ⟨q, u, info, hqt, _, _, _, he⟩
+    · rw [he] at hs; cases hs; rfl
+    · rw [he, hqt] at hs; cases hs
+  | addUnit qt name unit fb tb dc =>
+    simp only [step] at hs
+    unfold addUnit at hs
+    rcases addInfo_spec h qt unit (mkInfo fb tb dc name) with ⟨e', he⟩ | ⟨q, u, info, _, _, _, _, he⟩
+    · rw [he] at hs; cases hs; rfl
+    · rw [he] at hs; cases hs
+  | addCategory a =>
+    simp only [step] at hs
+    rcases addCategory_spec lg r a with ⟨e', he⟩ | ⟨c, info, _, _, _, he⟩
+    · rw [he] at hs; cases hs; rfl
+    · rw [he] at hs; cases hs
+
 end
 
 end Barril.Reg
